@@ -69,6 +69,29 @@ pub(crate) fn point(h: &CommandAcknowledgementHandle, k: u32) {
     }
 }
 
+// ---- interference points inside poll (X2b) ---------------------------------------------------------
+// The worker's done(s) performs, in this order, A1: status := s, A2: flag := true, A3: wake the registered waker
+// (kani:ack/done_keeps_j_at_every_point checks A1 before A2 on the real done()). While a poll is between two of its statements
+// it may hold the waker lock, so A3 cannot run there, but A1 and A2 can. ENV_STEPS_AT[k] = how many of {A1, A2} the environment
+// performs at point k of poll.
+static mut ENV_ON: bool = false;
+static mut ENV_STATUS: CommandStatus = CommandStatus::Accepted;
+static mut ENV_PROGRESS: u8 = 0;                 // 0: nothing yet, 1: A1 done, 2: A1 and A2 done
+static mut ENV_STEPS_AT: [u8; 8] = [0; 8];
+static mut POLL_POINTS_SEEN: u32 = 0;
+pub(crate) fn poll_point(h: &CommandAcknowledgementHandle, k: usize) {
+    unsafe {
+        POLL_POINTS_SEEN += 1;
+        if !ENV_ON || k >= 8 { return; }
+        let mut n = ENV_STEPS_AT[k];
+        while n > 0 && ENV_PROGRESS < 2 {
+            if ENV_PROGRESS == 0 { *h.status.lock() = ENV_STATUS; } else { h.done.store(true, Ordering::Release); }
+            ENV_PROGRESS += 1;
+            n -= 1;
+        }
+    }
+}
+
 // ---- obligations --------------------------------------------------------------------------------
 verif_harness! {
     fn constructors_satisfy_j() {
@@ -168,5 +191,42 @@ verif_harness! {
         assert!(poll_once(&h, 1) == Poll::Pending);
         if kani::any() { assert!(poll_once(&h, 2) == Poll::Pending); h.done(s); assert!(wakes(2) >= 1); }
         else { h.done(s); assert!(wakes(1) >= 1); }
+    }
+}
+
+verif_harness! {
+    #[kani::unwind(10)]
+    fn poll_is_correct_under_interference() {
+        // the worker's status write and flag store land at ARBITRARY points inside one poll (waker 1); then the worker finishes
+        let s = any_status();
+        kani::assume(s != CommandStatus::Pending);
+        let slot: u8 = kani::any();
+        kani::assume(slot < 3);
+        let h = handle_with(false, CommandStatus::Pending, match slot { 0 => None, 1 => Some(waker(1)), _ => Some(waker(2)) });
+        let steps: [u8; 8] = kani::any();
+        let mut i = 0;
+        while i < 8 { kani::assume(steps[i] <= 2); i += 1; }
+        unsafe { ENV_ON = true; ENV_STATUS = s; ENV_PROGRESS = 0; ENV_STEPS_AT = steps; }
+        let r = poll_once(&h, 1);
+        let progress = unsafe { ENV_ON = false; ENV_PROGRESS };
+        unsafe { assert!(POLL_POINTS_SEEN >= 2); }               // the instrumentation is really there
+        match r {
+            // never the placeholder: a Ready poll carries the status the worker wrote
+            Poll::Ready(x) => { assert!(x == s && x != CommandStatus::Pending); assert!(progress == 2); }
+            Poll::Pending => {
+                // the poller's waker is registered, so the wake-up that ends done() reaches it
+                let g = h.waker_state.lock();
+                assert!(g.waker.is_some() && g.waker.as_ref().unwrap().will_wake(&waker(1)));
+            }
+        }
+        // the worker finishes whatever is left of done(): A1, A2 (if still due), then A3
+        if progress == 0 { *h.status.lock() = s; }
+        if progress <= 1 { h.done.store(true, Ordering::Release); }
+        if let Some(w) = &h.waker_state.lock().waker { w.wake_by_ref(); }
+        if r.is_pending() { assert!(wakes(1) >= 1); }            // no lost wake-up
+        assert!(poll_once(&h, 1) == Poll::Ready(s));            // and every later poll gives the real status
+        kani::cover!(r.is_pending() && progress == 2, "flag set during the poll, after its flag check");
+        kani::cover!(r.is_ready(), "flag set during the poll, before its flag check");
+        kani::cover!(r.is_pending() && progress == 1, "status written during the poll, flag not yet");
     }
 }
